@@ -94,7 +94,7 @@ extra = {
  "C09": " ForEach is also run with Try/Lift of a function failing on an uninterpreted set (the outcome is ignored as in pipe.ForEach: every element still applied once).",
  "C10": " The carriers are value types (uint8/int): a monoid whose Combine mutates a reference-typed argument in place is outside the claim.",
  "C12": " One configuration calls Join with a spread slice that the caller overwrites right after the call.",
- "C13": " Includes ops=2 with an interval that ops does not divide.",
+ "C13": " Includes ops=2 with an interval that ops does not divide, and ops=2 over two full rounds (n=4).",
  "C14": " Added later: the depth-3 trees along the left spine (right operand of every Plus a leaf, leaves of 0..1 elements, Join(Join(..)) excluded).",
  "C17": " monoid.From is also applied to already-built monoids; ord.String implementations that iterate over runes are executed with exact symbolic UTF-8 decoding.",
 }
